@@ -89,6 +89,18 @@ class C:
 class D(C, Mixin):
     pass
 """, ["C"], {"C": "none"}),
+    # a plain subclass whose own __new__ forwards its arguments up the MRO (plain Python: object.__new__ refuses them)
+    "sub_new_forwards": ("""
+{D}
+class C:
+    x: int = Attr(default=7)
+
+class D(C):
+    def __new__(cls, *args, **kwargs):
+        return super().__new__(cls, *args, **kwargs)
+
+D_KW = {"x": 2}
+""", ["C"], {"C": "none"}),
     "keyed_nested": ("""
 {D}
 class P:
@@ -117,8 +129,11 @@ def inst_obs(ns, tgt):
     """What constructing instances looks like (of the class, and of its plain subclass D where the scenario has one)."""
     out = repr(ns[tgt]())
     if "D" in ns and tgt == "C":
-        d = ns["D"]()
-        out += " | D: " + repr(d) + " " + repr(sorted(k for k in d.__dict__ if not k.startswith("__")))
+        try:
+            d = ns["D"](**ns.get("D_KW", {}))
+            out += " | D: " + repr(d) + " " + repr(sorted(k for k in d.__dict__ if not k.startswith("__")))
+        except Exception as e:  # noqa: BLE001
+            out += " | D: raises " + type(e).__name__
     return out
 
 
